@@ -46,6 +46,20 @@ def locate_req(p, r):
     return loc, boolidx, isbool
 
 
+def _traffic_bound(p, reqs):
+    """generous upper bound of the frames the requests may legitimately need (>= 8 data bytes per fragment, 3 passes)"""
+    total = 0
+    for r in reqs:
+        try:
+            loc, _, isbool = locate_req(p, r)
+            n = (r.get("count") or 1)
+            size = p.elem_size(loc.type) * (n if not isbool else (n + 63) // 32)
+        except Exception:
+            size = 0
+        total += 3 * (size // 8 + 8)
+    return total
+
+
 def kind_of(p, r):
     """coarse request class for bucketing / generator health"""
     try:
@@ -333,6 +347,9 @@ def _run_case(case, want_readback):
             run.add("C04", "connsize.mismatch", f"driver believes {plc.connection_size}, target granted {conn['size']}")
         reqs = case["reqs"]
         forced_status = {f["when"]["tag"]: f["status"] for f in case.get("forced", []) if "tag" in f.get("when", {})}
+        # the step budget only has to tell a terminating call from a non-terminating one: it grows with the amount of data the
+        # requests legitimately move (a target may return fragments of a dozen bytes; everything is read up to three times)
+        harness.CURRENT["budget"] += _traffic_bound(p, reqs)
         if case["op"] == "read":
             _run_read(run, p, tgt, plc, reqs, forced_status)
         else:
